@@ -33,7 +33,7 @@ echo "demo without patch exit=$r0 (want 0); build=$rb (want 0); demo with patch 
 # our check against it
 git -C /repo apply $SRC/patch.diff || { echo "patch does not apply to /repo" | tee -a $log; exit 2; }
 cd /verif && ./check $PROP --tier $TIER > $DST/check_$TIER.out 2>&1; rc=$?
-git -C /repo checkout -q -- . ; git -C /verif checkout -q -- evidence/$PROP.json 2>/dev/null; git -C /repo status --short | grep -v '^??' | head -3
+git -C /repo checkout -q -- . ; git -C /verif checkout -q -- evidence/$PROP.json lean/MgpuModel/Gen 2>/dev/null; git -C /repo status --short | grep -v '^??' | head -3
 tail -5 $DST/check_$TIER.out | cut -c1-400
 echo "our check ($TIER) exit=$rc" | tee -a $log
 python3 - <<PY
